@@ -60,7 +60,7 @@ Print Assumptions C13_noreset_refuted.
    cached model whose ids cannot be *)
 Example C13_nonvacuous :
   let h := [NewModel 10 11; Discard 2; NewModel 10 11; NewExplainer 0 5; ShareIO 5; Discard 5; NewExplainer 1 6;
-            NewModel 10 11; NewModel 12 13; NewExplainer 2 9] in
+            NewModel 10 11; NewModel 12 13; NewExplainer 2 9; NewOutput 9 14; NewExplainer 3 11] in
   effective (run h) 0 = Some (3, 4) /\ effective (run h) 1 = Some (3, 4) /\ effective (run h) 2 = Some (7, 8)
-  /\ map fst (models (run h)) = [9; 6; 5].
+  /\ effective (run h) 3 = Some (7, 10) /\ map fst (models (run h)) = [11; 9; 6; 5].
 Proof. vm_compute. repeat split; reflexivity. Qed.
